@@ -581,7 +581,7 @@ func hang(o *Out, what string) string {
 func (e *engine) newNode(id, addr string) *hnode {
 	var ln net.Listener
 	for try := 0; try < 50; try++ {
-		l, err := net.Listen("tcp4", "127.0.0.1:0")
+		l, err := ListenRetry("tcp4", "127.0.0.1:0")
 		if err != nil {
 			panic("listen: " + err.Error())
 		}
